@@ -4,6 +4,7 @@ CONSTANTS
   MaxLen = 6
   Vals = {1, 2}
   MaxOps = 6
+  Extras = TRUE
   HistOn = FALSE
   AddSizes = {1}
   RewindPoints <- RPAll
